@@ -252,6 +252,11 @@ func features(xs []*S, c fctx, f map[string]bool, top bool) {
 			}
 		case "raw":
 			f["unsupported:"+s.Form] = true
+			// an injected construct may carry a `continue` of the enclosing loop: the known finding about
+			// loops whose post statement yields applies to it as well
+			if strings.Contains(s.Code, "continue") && c.loop != nil && c.loop.Post == "yield" {
+				f["continue-in-loop-with-yielding-post"] = true
+			}
 		case "panic":
 			f["panic:"+s.Form] = true
 			if c.loop != nil {
